@@ -1,7 +1,7 @@
-\* quick: base chains and every single perturbation x 6 trusted sets; 2160 option combinations x 2 endpoints per state
+\* quick: base chains and every single perturbation x 7 trusted sets; 2160 option combinations x 2 endpoints per state
 CONSTANTS
   Depth = 1
 INIT Init
 NEXT Next
-INVARIANTS Laws ExportIsAdmit Export
+INVARIANTS Laws Export
 CHECK_DEADLOCK FALSE
